@@ -182,15 +182,21 @@ def run_case(case, acc):
         spec = [['split', 'p_lt3', [['group_by', 'k_mixed', [['to_list']]], ['to_list']]]]
     else:
         raise ValueError(fam)
-    sink, ctx, store = harness.run_api(spec, items, track_states=True)
-    acc.evals += 1
-    acc.events += len(items) + 1
-    acc.traces += 1
+    twice = len(items) <= 4
+    sink, ctx, store = harness.run_api(spec, items, track_states=True, twice=twice)
+    acc.evals += 2 if twice else 1
+    acc.events += (len(items) + 1) * (2 if twice else 1)
+    acc.traces += 2 if twice else 1
     exp = harness.model_all(spec, items)
     out = []
     sp = harness.status_problem(sink)
     if sp:
         out.append(viol(fam, sp, {'spec': spec, 'items': items, 'error': repr(sink.error)}))
+    if twice:
+        acc.count('second_subscriptions')
+        d = harness.second_problem(sink)
+        if d:
+            out.append(viol(fam, 'second-subscription-differs', dict(d, spec=spec, items=items)))
     kind = harness.diff_kind(exp, sink.items)
     if kind:
         out.append(viol(fam, '%s-output-%s' % (case.get('inner', 'to_list'), kind),
